@@ -291,6 +291,10 @@ impl EditState {
                 return self.push_undo_action(Box::new(op));
             }
 
+            if area.get_height() < 2 {
+                // a single row rotated vertically is unchanged (the row-moving code below needs at least two rows)
+                return Ok(());
+            }
             let old_layer = Layer::from_layer(layer, area);
 
             let mut saved_line = Vec::new();
@@ -334,6 +338,10 @@ impl EditState {
             if area.get_width() >= layer.get_width() {
                 let op = super::undo_operations::UndoScrollWholeLayerDown::new(self.get_current_layer()?);
                 return self.push_undo_action(Box::new(op));
+            }
+            if area.get_height() < 2 {
+                // a single row rotated vertically is unchanged (the row-moving code below needs at least two rows)
+                return Ok(());
             }
             let old_layer = Layer::from_layer(layer, area);
 
